@@ -228,6 +228,8 @@ def r3_shipped_graphs(ctx):
 
 
 def r4_orientation(ctx):
+    from ..astq import Canon
+
     ctx.rule("C15.R4", "path matrix written [parent, child], children read from rows, ancestors from columns, in the emitted order", 5)
     ix = ctx.ix
     f = ix.func(DAG, f"{CLS}.compute_topological_order_and_path_matrix", "C15.R4")
@@ -239,27 +241,79 @@ def r4_orientation(ctx):
     if len(inner) != 1:
         raise AnalysisError("C15.R4", "anchor vanished: loop over the children of the popped node")
     fl = inner[0]
-    src = U(w)
-    i_def = "i = ix_nodes[n]" in src
-    j_def = any(isinstance(s, ast.Assign) and U(s) == f"j = ix_nodes[{U(fl.target)}]" for s in fl.body)
-    ctx.check(i_def and j_def and U(fl.iter) == "direct_children_[n]", "C15.R4", f, fl, "i = popped node, j ranges over its direct children", "indices i / j no longer denote the popped node and its children")
-    prop = [s for s in fl.body if isinstance(s, ast.AugAssign) and isinstance(s.op, ast.BitOr)]
-    ok = len(prop) == 1 and U(prop[0].target) == "path_matrix[:, j]" and U(prop[0].value) == "path_matrix[:, i]"
-    ctx.check(ok, "C15.R4", f, prop[0] if prop else fl, "ancestors of the parent propagated to the child (column-wise)", "the ancestors of a node are no longer propagated to its children column-wise: transitive closures lose indirect links")
-    edge = [s for s in fl.body if isinstance(s, ast.Assign) and U(s.targets[0]) == "path_matrix[i, j]" and U(s.value) == "True"]
-    ctx.check(len(edge) == 1, "C15.R4", f, edge[0] if edge else fl, "direct edge written at [parent, child]", "the direct edge is no longer written at path_matrix[parent, child]", construct="direct edge")
-    ctx.check("path_matrix = path_matrix[ix_sorted_nodes, :][:, ix_sorted_nodes]" in U(f.node) and "ix_sorted_nodes = [ix_nodes[n] for n in sorted_nodes]" in U(f.node), "C15.R4", f, f.node,
-              "rows and columns permuted into the emitted order", "the path matrix is not re-indexed (rows and columns) into the emitted order", construct="re-indexing")
-    # roots enqueued: nodes without ancestors; a child is enqueued when its last ancestor is consumed
-    ok = "if len(s_ancestors) == 0:" in ast.unparse(f.node) and "direct_ancestors_[m] = direct_ancestors_[m].difference({n})" in U(f.node) and "if len(direct_ancestors_[m]) == 0" in U(f.node)
-    ctx.check(ok, "C15.R4", f, f.node, "a node is emitted only once all its direct ancestors were", "a node may be emitted before one of its ancestors", construct="Kahn condition")
+    # index variables: X = <index map>[<name>]
+    idx_of = {}
+    for st in ast.walk(w):
+        if isinstance(st, ast.Assign) and isinstance(st.targets[0], ast.Name) and isinstance(st.value, ast.Subscript) and isinstance(st.value.slice, ast.Name):
+            idx_of[st.targets[0].id] = st.value.slice.id
+    popped = [st.targets[0].id for st in w.body if isinstance(st, ast.Assign) and isinstance(st.value, ast.Call) and isinstance(st.value.func, ast.Attribute) and st.value.func.attr in ("get", "popleft", "pop")]
+    child = fl.target.id if isinstance(fl.target, ast.Name) else None
+    ctx.anchor(bool(popped) and child is not None and "direct_children" in U(fl.iter) and U(fl.iter).endswith(f"[{popped[0]}]"), "C15.R4", f, fl, "inner loop ranges over the direct children of the popped node",
+               "loop over the children of the popped node")
+    pm = None
+    prop = []  # (statement, target subscript, the other operand)
+    for s_ in ast.walk(fl):
+        if isinstance(s_, ast.AugAssign) and isinstance(s_.op, ast.BitOr) and isinstance(s_.target, ast.Subscript):
+            prop.append((s_, s_.target, s_.value))
+        elif isinstance(s_, ast.Assign) and isinstance(s_.targets[0], ast.Subscript):
+            v_ = s_.value
+            ops = None
+            if isinstance(v_, ast.BinOp) and isinstance(v_.op, ast.BitOr):
+                ops = (v_.left, v_.right)
+            elif isinstance(v_, ast.Call) and U(v_.func) == "torch.logical_or" and len(v_.args) == 2:
+                ops = tuple(v_.args)
+            if ops:
+                tt = U(s_.targets[0])
+                other = [o for o in ops if U(o) != tt]
+                if len(other) == 1 and any(U(o) == tt for o in ops):
+                    prop.append((s_, s_.targets[0], other[0]))
+    if not prop:
+        ctx.violation("C15.R4", f, fl, "the ancestors of a node are never propagated to its children (no `|=` on the path matrix inside the traversal): transitive closures lose every indirect link")
+    for s_, t, v in prop:
+        pm = U(t.value)
+
+        def col(e):
+            return isinstance(e, ast.Subscript) and isinstance(e.slice, ast.Tuple) and len(e.slice.elts) == 2 and isinstance(e.slice.elts[0], ast.Slice) and isinstance(e.slice.elts[1], ast.Name)
+        if col(t) and col(v) and U(v.value) == pm:
+            tj, vi = t.slice.elts[1].id, v.slice.elts[1].id
+            good = idx_of.get(tj) == child and popped and idx_of.get(vi) == popped[0]
+            ctx.check(good, "C15.R4", f, s_, "column of the child |= column of its parent (ancestors inherited)",
+                      f"`{U(s_)}`: the column written is that of `{idx_of.get(tj)}` and the one read that of `{idx_of.get(vi)}` - ancestors must flow from the popped node to its child")
+        else:
+            ctx.unknown("C15.R4", f, s_, "propagation statement is not of the column-wise form `M[:, child] |= M[:, parent]`")
+    edges = [s_ for s_ in ast.walk(fl) if isinstance(s_, ast.Assign) and isinstance(s_.targets[0], ast.Subscript) and U(s_.value) == "True" and isinstance(s_.targets[0].slice, ast.Tuple)
+             and len(s_.targets[0].slice.elts) == 2 and all(isinstance(e, ast.Name) for e in s_.targets[0].slice.elts)]
+    if not edges:
+        ctx.violation("C15.R4", f, fl, "the direct edge parent -> child is never written into the path matrix")
+    for s_ in edges:
+        r_, c_ = (e.id for e in s_.targets[0].slice.elts)
+        good = popped and idx_of.get(r_) == popped[0] and idx_of.get(c_) == child
+        ctx.check(good, "C15.R4", f, s_, "direct edge written at [parent, child]", f"`{U(s_)}` writes the edge at [{idx_of.get(r_)}, {idx_of.get(c_)}], not [parent, child]: rows would hold ancestors, columns descendants")
+    src = U(f.node)
+    ctx.anchor("[ix_sorted_nodes, :][:, ix_sorted_nodes]" in src, "C15.R4", f, f.node, "rows and columns permuted into the emitted order", "re-indexing of the path matrix into the emitted order", construct="re-indexing")
+    ok = ".difference({" in src and "if len(direct_ancestors_[" in src.replace("direct_ancestors_", "direct_ancestors_") and "== 0" in src
+    ctx.anchor(ok, "C15.R4", f, f.node, "a node is emitted only once all its direct ancestors were", "Kahn condition (remaining ancestors == 0)", construct="Kahn condition")
     g = ix.func(DAG, f"{CLS}.compute_sorted_children_and_ancestors", "C15.R4")
+    a = g.node.args.args
+    pmn = a[1].arg if len(a) > 1 else "path_matrix"
+    sn = a[0].arg
+    rets = [s_ for s_ in statements(g.node) if isinstance(s_, ast.Return)]
     comps = {U(st.targets[0]): st.value for st in statements(g.node) if isinstance(st, ast.Assign) and isinstance(st.value, ast.DictComp)}
-    ch, an = comps.get("sorted_children"), comps.get("sorted_ancestors")
-    ok = ch is not None and an is not None and "path_matrix[idx_node, :]" in U(ch) and "path_matrix[:, idx_node]" in U(an) and "sorted_nodes[" in U(ch) and "sorted_nodes[" in U(an) \
-        and U(ch.generators[0].iter) == "enumerate(sorted_nodes)" and U(an.generators[0].iter) == "enumerate(sorted_nodes)"
-    ctx.check(ok, "C15.R4", g, g.node, "children = row of the node, ancestors = column of the node, both listed in the emitted order",
-              "children / ancestors are read with the wrong orientation of the path matrix (rows = descendants, columns = ancestors)", construct="orientation of the readers")
+    order = [U(e) for e in rets[0].value.elts] if rets and isinstance(rets[0].value, ast.Tuple) else []
+    if len(order) != 2 or any(o not in comps for o in order):
+        ctx.unknown("C15.R4", g, g.node, "compute_sorted_children_and_ancestors no longer returns two dictionary comprehensions")
+    else:
+        for pos, (what, want_axis) in enumerate((("children", 0), ("ancestors", 1))):
+            dc = comps[order[pos]]
+            gen = dc.generators[0]
+            idxv = gen.target.elts[0].id if isinstance(gen.target, ast.Tuple) and isinstance(gen.target.elts[0], ast.Name) else None
+            subs = [x for x in ast.walk(dc.value) if isinstance(x, ast.Subscript) and U(x.value) == pmn and isinstance(x.slice, ast.Tuple) and len(x.slice.elts) == 2]
+            if idxv is None or len(subs) != 1 or U(gen.iter) != f"enumerate({sn})":
+                ctx.unknown("C15.R4", g, dc, f"{what}: unrecognised reader form")
+                continue
+            axis = 0 if U(subs[0].slice.elts[0]) == idxv else (1 if U(subs[0].slice.elts[1]) == idxv else None)
+            ctx.check(axis == want_axis and f"{sn}[" in U(dc.value), "C15.R4", g, dc, f"{what} of a node = its {'row' if want_axis == 0 else 'column'} of the path matrix, listed in the emitted order",
+                      f"{what} are read from the {'column' if axis == 1 else 'row'} of the node: with edges written at [parent, child] that yields the {'ancestors' if what == 'children' else 'descendants'} instead")
 
 
 def rules(ctx):
@@ -280,5 +334,7 @@ VARIANTS = [
     V("children-unsorted", D, "direct_children_ = {n: sorted(direct_children[n]) for n in nodes}", "direct_children_ = {n: direct_children[n] for n in nodes}", "C15.R2"),
     V("rows-columns-swapped", D, "for j in path_matrix[idx_node, :]", "for j in path_matrix[:, idx_node]", "C15.R4"),
     V("no-closure-propagation", D, "                path_matrix[:, j] |= path_matrix[:, i]\n", "", "C15.R4"),
+    V("edge-transposed", D, "                path_matrix[i, j] = True\n", "                path_matrix[j, i] = True\n", "C15.R4"),
+    V("silent-rename-indices", D, "path_matrix[:, j] |= path_matrix[:, i]", "path_matrix[:, j] = path_matrix[:, j] | path_matrix[:, i]", None),
     V("reserved-name-used", "src/leaspy/models/logistic.py", "            g=LinkedVariable(Exp(\"log_g\")),", "            g=LinkedVariable(Exp(\"log_g\")),\n            lonely=Hyperparameter(1.0),", "C15.R3"),
 ]
